@@ -1,87 +1,23 @@
 import JadeModel.Proofs.SystemLive2
+import JadeModel.Proofs.SystemLiveStep4S
+import JadeModel.Proofs.SystemLiveStep4A
+import JadeModel.Proofs.SystemLiveStep4B
 
 set_option linter.unusedSimpArgs false
 
-/-!
-Fault-free executions, part 4: a SUBMITTED job is in a batch that is believed active — or its row is on
+/-! Fault-free executions, part 4: a SUBMITTED job is in a batch that is believed active — or its row is on
 the way through this round's collection.  After the collection loop no uncollected row is left behind for
 a batch that is not believed active.
--/
+ -/
 
 namespace Jade.Sys
 
-/-- the role holder believes every queued or running batch active (plain-language form) -/
-theorem holder_tracked' {s : Sys} (hc : CapInv s) (h0 : Live0 s) {q : Pid} {a : Bool} {y : SubP}
-    (hq : s.procs q = .sub a y) (hh : holds y.pc = true) (k : Hid)
-    (hk : s.slurm k = some .running ∨ s.slurm k = some .pending) : k ∈ y.out := by
-  apply holder_tracked hc h0 hq hh
-  rcases hk with hk | hk <;> simp [activeB, hk]
-
-/-- an id that is known to the scheduler and not active has ended -/
-theorem ended_of_not_active {s : Sys} {k : Hid} (h1 : s.slurm k ≠ none) (h2 : activeB s k = false) :
-    s.slurm k = some .ended := by
-  unfold activeB at h2
-  split at h2 <;> simp_all
-  next h3 h4 =>
-    cases hk : s.slurm k with
-    | none => exact absurd hk h1
-    | some b => cases b <;> simp_all
-
-structure Live4 (s : Sys) : Prop where
-  diskSub : ∀ j : JobId, s.disk.st j = .sub →
-    ∃ B ∈ s.batches, j ∈ B.jobs ∧ ∃ h : Hid, B.hid = some h ∧ h ∈ s.disk.ids
-  hSub : ∀ q a y, s.procs q = .sub a y → holds y.pc = true → ∀ j : JobId, y.loc.st j = .sub →
-    j ∈ y.newly ∨ HasJob y.pass j ∨
-      ∃ B ∈ s.batches, j ∈ B.jobs ∧ ∃ h : Hid, B.hid = some h ∧ (h ∈ y.out ∨ HasJob (s.nodeFile B.bid) j)
-  pendBatch : ∀ q a y, s.procs q = .sub a y → holds y.pc = true → ∀ j ∈ y.pend,
-    ∃ B ∈ s.batches, j ∈ B.jobs ∧ ∃ h : Hid, B.hid = some h ∧ h ∈ y.out
-  /-- after the collection loop: nothing uncollected outside the batches believed active -/
-  quiet : ∀ q a y, s.procs q = .sub a y → (y.pc = .ready ∨ y.pc = .marked ∨ y.pc = .persisted) →
-    ∀ B ∈ s.batches, ∀ h : Hid, B.hid = some h → h ∈ y.out ∨ s.nodeFile B.bid = []
-
-theorem live4_init (sc : Scn) : Live4 (init sc) := by
-  refine ⟨?_, ?_, ?_, ?_⟩ <;> simp [init, HasJob]
-
-/-- like `plain_cases`, after `cases op` -/
-macro "plain_split" h:ident hs:ident hg:ident : tactic => `(tactic|
-  (have $hs:ident := stepP_step $h:ident
-   have $hg:ident := plainGuard_stepP $h:ident
-   simp only [PlainGuard] at $hg:ident <;> (try (obtain ⟨_, rfl⟩ := $hg:ident)) <;> step_cases $hs:ident))
-
-theorem snoc_mem (l : List Batch) (b : Batch) : b ∈ l ++ [b] := by simp
-
-set_option maxHeartbeats 32000000 in
-theorem live4_sbatch {s s' : Sys} {p : Pid} {jobs : List JobId} {hid : Option Hid} (hc : CapInv s)
-    (h0 : Live0 s) (hi : Live4 s) (h : stepP s (.sbatch p jobs hid) = some s') : Live4 s' := by
-  have hk := hc.node.hidKnown
-  obtain ⟨r1, r2, r3, r4, r5⟩ := hc.node.batch.role
-  obtain ⟨a1, a2, a3, a4, a5, a6⟩ := h0
-  obtain ⟨d1, d2, d3, d4⟩ := hi
-  plain_split h hs hg
-  refine ⟨?_, ?_, ?_, ?_⟩ <;> frame_out
-  all_goals first
-    | grind [snoc_mem]
-
-set_option maxHeartbeats 32000000 in
 theorem live4_step {s s' : Sys} {op : Op} (hc : CapInv s) (hp : ProgA s) (h0 : Live0 s) (h2 : Live2 s)
     (h3 : Live3 s) (hi : Live4 s) (h : stepP s op = some s') : Live4 s' := by
-  cases op with
-  | sbatch p jobs hid => exact live4_sbatch hc h0 hi h
-  | _ =>
-    have htr := fun q a y hq hh => @holder_tracked' s hc h0 q a y hq hh
-    have hbu := fun b hb b' hb' => @bid_unique s.batches hc.node.batch.idsNodup b b' hb hb'
-    have hend := fun k => @ended_of_not_active s k
-    have nob := hc.node.ofBatch
-    have hu := hc.node.hidUnique
-    have hk := hc.node.hidKnown
-    obtain ⟨r1, r2, r3, r4, r5⟩ := hc.node.batch.role
-    obtain ⟨a1, a2, a3, a4, a5, a6⟩ := h0
-    obtain ⟨-, e2, e3, -⟩ := h2
-    have c1 := h3.hProc
-    have p2 := hp.outIds
-    obtain ⟨d1, d2, d3, d4⟩ := hi
-    plain_split h hs hg <;> (refine ⟨?_, ?_, ?_, ?_⟩ <;> frame_out)
-    all_goals first
-      | grind [SubP.load, persistStatus, find?_hid, afterCollect, afterPersist, CollectedAll]
+  have hsb : ∀ p jobs hid, op = Op.sbatch p jobs hid → Live4 s' := fun p jobs hid e => by
+    subst e; exact live4_sbatch hc h0 hi h
+  obtain ⟨c_diskSub, c_hSub⟩ := live4_step_a hc hp h0 h2 h3 hi h hsb
+  obtain ⟨c_pendBatch, c_quiet⟩ := live4_step_b hc hp h0 h2 h3 hi h hsb
+  exact ⟨c_diskSub, c_hSub, c_pendBatch, c_quiet⟩
 
 end Jade.Sys
